@@ -316,7 +316,7 @@ EXECUTORS = {"filter": ex_filter, "spatial": ex_spatial, "load": ex_load, "noop"
 def run(ctx):
     install(ctx)
     thorough = ctx.tier == "thorough"
-    n = (30000 if thorough else 700) // ctx.nshards
+    n = (450000 if thorough else 700) // ctx.nshards
     for j in range(n):
         r = ctx.rng("c04", j)
         nev = int(r.choice([0, 1, 3, 12, 60, 200 if j % 25 == 0 else 30]))
